@@ -2,6 +2,7 @@ package checks
 
 import (
 	"encoding/json"
+	"time"
 
 	"verif/mc"
 )
@@ -25,7 +26,8 @@ func c09Run(c *mc.Ctx) {
 	dlens := []int{150, 8200, 20000}
 	chunks := []int{0, 1, 4097}
 	if th {
-		rsizes, wsizes, depth = []int{1, 3, 100, 4096, 4097, 8193, 16385}, []int{1, 3, 4095, 4096, 4097, 8193, 16385}, 5
+		// one level deeper with the quick alphabets, more stream lengths and chunk policies
+		depth = 5
 		dlens = []int{150, 4097, 8200, 20000, 40000}
 		chunks = []int{0, 1, 7, 4096, 4097}
 	}
@@ -111,7 +113,7 @@ func c09SkipDecoders(c *mc.Ctx) {
 
 func init() {
 	Register(&Check{
-		ID: "C09", Level: "model_checking",
+		ID: "C09", Level: "model_checking", Thorough: 45 * time.Minute,
 		Rule: "explicit-state BFS over reader histories (Next/Peek/Skip/ReadBinary/Release forcing 0..2 growths) with every returned slice retained until Release, and writer histories (Malloc filled late in forward/reverse order, WriteBinary from power-of-two payload buffers, Flush, failing sink) with every region retained until Flush; a co-tenant drains and scribbles every free pool buffer between any two operations (keeping or re-freeing them); states = object private state + retained-slice set + pool free lists; oracle = retained contents, region disjointness, caller-memory snapshots, pool ownership audit",
 		Assumptions: []string{
 			"the shared pool is the deterministic auditing shim with the size rules of mcache (Free ignores non-power-of-two capacities, LIFO reuse per class)",
